@@ -34,11 +34,11 @@ def plan(tier, seed):
     i = 100
     n = S(tier, 200, 2000)
     for r in range(n):
-        cases.append(dict(lane='matrix', K=int(rng.integers(1, 7)), lead=pick([[], [4]]), dtype=pick(['float', 'int', 'ties']), rs=[seed, 17, i])); i += 1
+        cases.append(dict(lane='matrix', K=int(rng.integers(1, 7)), lead=pick([[], [4]]), dtype=pick(['float', 'int', 'ties', 'uint8', 'uint16', 'bool', 'int8']), rs=[seed, 17, i])); i += 1
     for r in range(n):
-        refk = pick(['onehot-ish', 'continuous', 'soft', 'similar', 'int8-binary', 'bool-binary'])
+        refk = pick(['onehot-ish', 'continuous', 'soft', 'similar', 'int8-binary', 'bool-binary', 'quiet', 'quiet32'])
         cases.append(dict(lane='field', K=int(rng.integers(1, 7)), F=int(pick([1, 3, 5, 9, 33, 65])), T=int(rng.integers(2, 40)) if 'binary' not in refk else int(pick([60, 400, 1000])),
-                          metric=pick(METRICS) if 'binary' not in refk else ('cos' if refk == 'bool-binary' else pick(['cos', 'euclidean'])),   # boolean arrays cannot be subtracted (explicit TypeError)
+                          metric=(pick(METRICS) if not refk.startswith('quiet') else 'cos') if 'binary' not in refk else ('cos' if refk == 'bool-binary' else pick(['cos', 'euclidean'])),   # boolean arrays cannot be subtracted (explicit TypeError)
                           alg=pick(['greedy', 'optimal']),
                           ref=refk, rs=[seed, 18, i])); i += 1
     for r in range(n // 2):
@@ -103,6 +103,11 @@ def run_matrix(case, R):
             sm = 1000.0 + 0.01 * rng.uniform(size=(*lead, K, K))       # totals that differ only in the 6th significant digit
     elif case['dtype'] == 'int':
         sm = rng.integers(-50, 50, size=(*lead, K, K))
+    elif case['dtype'] in ('uint8', 'uint16', 'int8'):
+        # overlap counts as einsum of narrow integer masks produces them (the dtype is kept); totals stay inside the dtype
+        sm = rng.integers(0, np.iinfo(case['dtype']).max // 8 + 1, size=(*lead, K, K)).astype(case['dtype'])
+    elif case['dtype'] == 'bool':
+        sm = rng.uniform(size=(*lead, K, K)) < 0.5
     else:
         sm = rng.integers(0, 3, size=(*lead, K, K)).astype(float)
     if case['rs'][-1] % 3 == 0:
@@ -135,7 +140,15 @@ def reference(rng, kind, K, F, T):
             ref = np.moveaxis(rng.dirichlet([0.3] * K, size=(F, T)), -1, 0) + 1e-3
         else:
             ref = rng.uniform(0.05, 1.0, size=(K, F, T))
-        n = ref / np.linalg.norm(ref, axis=-1, keepdims=True)
+        if kind.startswith('quiet'):
+            # classes that are (nearly) inactive in some bins: rows of magnitude 1e-18 (1e-9 in single precision) next to O(1) rows.
+            # Their normalised rows are as distinct as before, which is all the cosine score looks at (the other metrics compare
+            # un-normalised rows, where such classes differ from each other below rounding: not sampled for them)
+            lvl = np.where(rng.uniform(size=(K, F, 1)) < 0.5, 1e-9 if kind == 'quiet32' else 1e-18, 1.0)
+            ref = ref * lvl
+            if kind == 'quiet32':
+                ref = ref.astype(np.float32)
+        n = ref / np.linalg.norm(ref.astype(float), axis=-1, keepdims=True)
         ok = True
         for a in range(K):
             for b in range(a):
